@@ -205,7 +205,7 @@ fn main() {
                 }
             }
         }
-        if emitted < max_emit && g.bytes.len() < 6000 {
+        if emitted < max_emit && g.bytes.len() < 6000 && g.pcm.len() <= MODEL_MAX_SAMPLES {
             emitted += 1;
             out.case(dec_stream_case(&g.bytes, Some(&g.pcm), &[("src", esc("gen")), ("tags", esc(&g.tags.join(" ")))]));
         }
@@ -252,7 +252,7 @@ fn main() {
                 );
             }
         }
-        if emitted < max_emit + max_emit / 2 && g.bytes.len() < 6000 {
+        if emitted < max_emit + max_emit / 2 && g.bytes.len() < 6000 && g.frames.iter().map(|f| f.samples.len()).sum::<usize>() <= MODEL_MAX_SAMPLES {
             emitted += 1;
             out.case(dec_subset_case(&g.bytes, &[("src", esc("gen")), ("tags", esc(&g.tags.join(" ")))]));
         }
